@@ -66,6 +66,15 @@ def explore_world(task):
         return explore_message_shapes(task)
     if task[0] == "rail-variables":
         return explore_rail_variables(task)
+    if task[0] == "repeated-texts":
+        from vf.props import c01_repeat
+        return c01_repeat.explore(task)
+    if task[0] == "2.x-several-utterances":
+        from vf.props import c01_multi
+        return c01_multi.explore(task)
+    if task[0] == "real-self-check-input":
+        from vf.props import c01_selfcheck
+        return c01_selfcheck.explore(task)
     if str(task[0]).startswith("2.x"):
         from vf.props import c01_v2
         return c01_v2.explore_world(task)
@@ -403,6 +412,10 @@ def tasks(tier):
         out.extend(c01_v2.tasks(tier))
     except ImportError:
         pass
+    from vf.props import c01_multi, c01_repeat, c01_selfcheck
+    # (the longer tasks of these families go first so that the pool is not left waiting for them at the end)
+    out = c01_repeat.tasks(tier) + c01_selfcheck.tasks(tier) + out
+    out.extend(c01_multi.tasks(tier))
     return out
 
 
@@ -427,15 +440,29 @@ def run(rep, tier):
     rep.set("evaluations", agg.get("turns", 0))
     rep.set("distinct_nontrivial", agg.get("rejections", 0) + agg.get("rewrites", 0))
     rep.set("rule", "every world (version x dialog x exceptions x ordered rail selection) x every conversation (per turn: every effective verdict vector x dialog path; hostile text in turn 1); "
-                    "non-trivial = turns in which a rail rejected or rewrote")
+                    "non-trivial = turns in which a rail rejected or rewrote; "
+                    "+ repeated-text conversations (texts over {X,Y} x fault vector x text-dependent verdict map, every turn may fail and be hidden: c01_repeat.py); "
+                    "+ the shipped self-check input rail with its real action over a ladder of text lengths x marker positions x prompt limits (c01_selfcheck.py); "
+                    "+ Colang 2.x calls that carry several user utterances x every verdict vector (c01_multi.py)")
     rep.set("exhaustive", True)
     rep.assumptions += [
         "rails are stub flows following the shape of the shipped self-check rails (execute action -> refuse/stop or rail exception; rewrite by assigning $user_message)",
         "scripted LLM, fake embedding engine; user texts carry a per-branch nonce so the instance-wide events cache cannot alias conversations",
+        "repeated-text family: a failing turn = the rail's own action raising once (injected at the action invocation); the rail action reads context['user_message'] like the shipped rails' actions",
+        "real self-check family: the scripted LLM blocks exactly when the check prompt it received shows the marker word; lengths are a ladder (step 1000 in the quick tier), not every length",
     ]
 
 
 def replay(rp):
+    if rp.get("mode") == "repeated-texts":
+        from vf.props import c01_repeat
+        return c01_repeat.replay(rp)
+    if rp.get("mode") == "real-self-check-input":
+        from vf.props import c01_selfcheck
+        return c01_selfcheck.replay(rp)
+    if rp.get("mode") == "several-utterances":
+        from vf.props import c01_multi
+        return c01_multi.replay(rp)
     if str(rp.get("version")).startswith("2.x"):
         from vf.props import c01_v2
         return c01_v2.replay(rp)
